@@ -16,22 +16,30 @@ package connectconformance
 //@   ensures result == contains(codecs, target)
 //@   loop 0: invariant !containsUpTo(codecs, rangeindex + 1, target)
 
+// the response definition carried by a request message (a fixed function of the message)
+//@ ufunc udefOf(m proto.Message) *conformancev1.UnaryResponseDefinition
+//@ ufunc sdefOf(m proto.Message) *conformancev1.StreamResponseDefinition
 //@ func unaryResponseDefiner.GetResponseDefinition
 //@   trusted
 //@   pure
+//@   ensures result == udefOf(self) && (result == nil || allocated(result))
+//@   //# a decoded message never holds a nil oneof wrapper, and an error wrapper holds an error message
+//@   ensures result != nil ==> (typeis(result.Response, *conformancev1.UnaryResponseDefinition_Error) ==> unbox(result.Response, *conformancev1.UnaryResponseDefinition_Error) != nil && unbox(result.Response, *conformancev1.UnaryResponseDefinition_Error).Error != nil) &&
+//@        (typeis(result.Response, *conformancev1.UnaryResponseDefinition_ResponseData) ==> unbox(result.Response, *conformancev1.UnaryResponseDefinition_ResponseData) != nil)
 //@ func streamResponseDefiner.GetResponseDefinition
 //@   trusted
 //@   pure
+//@   ensures result == sdefOf(self) && (result == nil || allocated(result))
 
 //@ func hasRawResponse
-//@   modifies nothing
+//@   modifies pbDecodedFrom, lastDecoded
 
 // Padding: on success every request with a size directive has serialized size exactly
 // server receive limit (200 KiB) + the requested offset; never a panic.
 //@ func expandRequestData
 //@   requires testCase != nil && testCase.Request != nil
 //@   requires forall i int, j int :: 0 <= i && i < j && j < len(testCase.Request.RequestMessages) ==> testCase.Request.RequestMessages[i] != testCase.Request.RequestMessages[j]
-//@   modifies pbPad, anySize, anySource, pbDecodedFrom, []byte
+//@   modifies pbPad, anySize, anySource, pbDecodedFrom, lastDecoded, []byte
 //@   ensures @same-message result == nil ==> (forall i int :: 0 <= i && i < len(testCase.ExpandRequests) && testCase.ExpandRequests[i].SizeRelativeToLimit != nil ==>
 //@       anySource[testCase.Request.RequestMessages[i]] == testCase.Request.RequestMessages[i])
 //@   ensures @size result == nil ==> (forall i int :: 0 <= i && i < len(testCase.ExpandRequests) && testCase.ExpandRequests[i].SizeRelativeToLimit != nil ==>
